@@ -177,6 +177,107 @@ def serve (r : R) (env : List Ans) : R × List Ans × Res :=
   | (r', env', .pending) => (r', env', .hang)
   | (r', env', .panic) => (r', env', .panic)
 
+/-! ### The middleware between the buffer worker and `Reconnect` (`Connection::new`) -/
+
+/-- What the worker's `call` returns once it is resolved at a quiescent point. -/
+inductive StackOut
+  | error (e : Nat)
+  | sent (c : Nat)
+  /-- `TimeoutExpired` from `GrpcTimeout`'s `ResponseFuture`; the request went out on `c` -/
+  | expired (c : Nat)
+  | panic
+deriving DecidableEq, Repr
+
+/-- `AddOrigin::call` → `UserAgent::call` → `GrpcTimeout::call` → (`ConcurrencyLimit`,
+`RateLimit`) → `Reconnect::call`, and the resolution of `GrpcTimeout`'s `ResponseFuture`.
+Every layer calls its inner service unconditionally, so `Reconnect::call` runs — and takes a
+parked connect error — whatever the deadline is. `ResponseFuture::poll` polls the inner future
+first: a parked error is ready at once and wins over any deadline; a request that went out with
+a zero effective deadline (`zero`) cannot be answered in time: it is cut off by this
+`GrpcTimeout` or by the peer's (CANCELLED, "Timeout expired"). (tokio timers are 1 ms coarse, so
+the answer may still win the race; the harness reports both as `expired`: the call got as far
+as a live connection and its own deadline decided the rest.) -/
+def stackCall (r : R) (zero : Bool) : R × StackOut :=
+  match call r with
+  | (r', .error e) => (r', .error e)
+  | (r', .sent c) => (r', if zero then .expired c else .sent c)
+  | (r', .panic) => (r', .panic)
+
+/-- Result of one request through the worker and the middleware. -/
+inductive SRes
+  | plain (res : Res)
+  | expired (c : Nat)
+deriving DecidableEq, Repr
+
+/-- The buffer worker handling one request whose effective deadline is zero or not. -/
+def serveD (r : R) (env : List Ans) (zero : Bool) : R × List Ans × SRes :=
+  match drive r env with
+  | (r', env', .ready) =>
+    match stackCall r' zero with
+    | (r'', .error e) => (r'', env', .plain (.err e))
+    | (r'', .sent c) => (r'', env', .plain (.resp c))
+    | (r'', .expired c) => (r'', env', .expired c)
+    | (r'', .panic) => (r'', env', .plain .panic)
+  | (r', env', .failed e) => (r', env', .plain (.closed e))
+  | (r', env', .pending) => (r', env', .plain .hang)
+  | (r', env', .panic) => (r', env', .plain .panic)
+
+/-- What the environment does to a request once it is out on a connection: the peer answers it,
+or the connection dies under it (`x` identifies that error). -/
+inductive Fate
+  | answered
+  | dies (x : Nat)
+deriving DecidableEq, Repr
+
+/-- One call of a session: its effective deadline is zero or not, and its fate once sent. -/
+structure CallSpec where
+  zero : Bool
+  fate : Fate
+deriving DecidableEq, Repr
+
+inductive XRes
+  | plain (res : Res)
+  /-- cut off by its own zero deadline after going out on `c` -/
+  | expired (c : Nat)
+  /-- in flight on `c` when the connection died with error `x` -/
+  | lost (c x : Nat)
+deriving DecidableEq, Repr
+
+/-- One request of any kind through the worker. The response future of a request that went out
+is owned by that request alone: what happens to it afterwards does not touch the state machine. -/
+def serveX (r : R) (env : List Ans) (cs : CallSpec) : R × List Ans × XRes :=
+  match serveD r env cs.zero with
+  | (r', env', .expired c) => (r', env', .expired c)
+  | (r', env', .plain (.resp c)) =>
+    match cs.fate with
+    | .answered => (r', env', .plain (.resp c))
+    | .dies x => (r', env', .lost c x)
+  | (r', env', .plain (.err e)) => (r', env', .plain (.err e))
+  | (r', env', .plain (.closed e)) => (r', env', .plain (.closed e))
+  | (r', env', .plain .hang) => (r', env', .plain .hang)
+  | (r', env', .plain .panic) => (r', env', .plain .panic)
+
+/-- Sequential calls of any kinds through the buffer (as `session`). -/
+def sessionX (r : R) (env : List Ans) : List CallSpec → List XRes × R × List Ans
+  | [] => ([], r, env)
+  | cs :: rest =>
+    match serveX r env cs with
+    | (r', env', .plain (.closed e)) => (List.replicate (rest.length + 1) (.plain (.closed e)), r', env')
+    | (r', env', .plain .hang) => ([.plain .hang], r', env')
+    | (r', env', .plain .panic) => ([.plain .panic], r', env')
+    | (r', env', .plain (.resp c)) =>
+      match sessionX r' env' rest with
+      | (xs, r'', env'') => (.plain (.resp c) :: xs, r'', env'')
+    | (r', env', .plain (.err e)) =>
+      match sessionX r' env' rest with
+      | (xs, r'', env'') => (.plain (.err e) :: xs, r'', env'')
+    | (r', env', .expired c) =>
+      match sessionX r' env' rest with
+      | (xs, r'', env'') => (.expired c :: xs, r'', env'')
+    | (r', env', .lost c x) =>
+      match sessionX r' env' rest with
+      | (xs, r'', env'') => (.lost c x :: xs, r'', env'')
+
 /-- `n` sequential calls through the buffer. After `poll_ready` failed the worker answers every
 request with that error without touching the service; a hang ends the observation. -/
 def session (r : R) (env : List Ans) : Nat → List Res × R × List Ans
@@ -332,12 +433,47 @@ def callRes (fixed : Bool) (w : World) : Res → CallRes
   | .hang => .hang
   | .panic => .panic
 
+/-- What a call of kind `k` turns into once it is on a connection: an ordinary call is answered;
+a zero-deadline call is cut off by `GrpcTimeout` (see `stackCall`) with the connection left as it
+is; a call whose peer dies in flight ends with the connection's error. A call that never got a
+connection ends the same way for every kind. -/
+def resK (k : CallKind) : CallRes → CallRes
+  | .resp c =>
+    match k with
+    | .plain => .resp c
+    | .zeroDeadline => .expired
+    | .peerDies => .lost c
+  | .error code att => .error code att
+  | .hang => .hang
+  | .panic => .panic
+  | .garbled => .garbled
+  | .expired => .expired
+  | .lost c => .lost c
+
+/-- The world after a call of kind `k`: the peer of an in-flight call dies. -/
+def World.afterK (w : World) (k : CallKind) (res : CallRes) : World :=
+  match k, res with
+  | .peerDies, .resp _ => { w with alive := none }
+  | _, _ => w
+
+/-- One call of kind `k` at a quiescent point. -/
+def callK (fixed : Bool) (k : CallKind) (r : R) (w : World) : Ev × R × World :=
+  match serve r (answersFor w r) with
+  | (r', _, res) =>
+    (.call (resK k (callRes fixed w res)) r'.made, r', (w.after r r').afterK k (callRes fixed w res))
+
 def runOps (fixed : Bool) (r : R) (w : World) : List Op → List Ev
   | [] => []
   | .die :: ops => .die :: runOps fixed r { w with alive := none } ops
   | .call :: ops =>
     match serve r (answersFor w r) with
     | (r', _, res) => .call (callRes fixed w res) r'.made :: runOps fixed r' (w.after r r') ops
+  | .callZero :: ops =>
+    match callK fixed .zeroDeadline r w with
+    | (ev, r', w') => ev :: runOps fixed r' w' ops
+  | .callDie :: ops =>
+    match callK fixed .peerDies r w with
+    | (ev, r', w') => ev :: runOps fixed r' w' ops
 
 /-- `Endpoint::connect_with_connector_lazy` / `connect_with_connector`, then the script. -/
 def run (fixed : Bool) (isLazy : Bool) (outcomes : List Outcome) (ops : List Op) : Trace :=
